@@ -652,10 +652,16 @@ class Interp:
         elif isinstance(s, ast.Break):
             raise _Break()
         elif isinstance(s, (ast.FunctionDef,)):
-            if s.decorator_list:
-                raise AnalysisError(f"model: decorated def {s.name}")
             tgt = loc if loc is not None else globs
-            tgt[s.name] = Func(s, globs, self, closure=loc)
+            fn = Func(s, globs, self, closure=loc)
+            for d in reversed(s.decorator_list):
+                # decorators are applied as written (functools.lru_cache,
+                # ... are the real ones: a memo behaves like a memo)
+                dec = self.ev(d, *env)
+                if not callable(dec):
+                    raise AnalysisError(f"model: decorator of {s.name}")
+                fn = self._try(dec, fn)
+            tgt[s.name] = fn
         elif isinstance(s, (ast.Import, ast.ImportFrom)):
             self.do_import(s, loc if loc is not None else globs)
         else:
